@@ -582,6 +582,15 @@ func genConfig(c *engine.Chooser, family string) Config {
 			cfg.FailAt = pick(4) - 1
 		}
 		cfg.C2S = []Pkt{{3, 2, 5}}
+	case "burst":
+		// several equally sized packets in a row: the reader goroutine can run ahead of HandleGame,
+		// so receive buffers recycled through bot.Conn's pool are reused while packets are queued
+		cfg.Threshold = []int{-1, 64}[pick(2)]
+		n := []int{3, 5}[pick(2)]
+		for i := 0; i < n; i++ {
+			cfg.S2C = append(cfg.S2C, Pkt{[]int32{idX, idY}[i%2], 6, 30 + i})
+		}
+		cfg.Handlers = []HSpec{{true, 0, 0}}
 	case "dispatch-many":
 		// large handler groups with ties and several priorities (sorting algorithms change
 		// behaviour with the group size)
@@ -612,6 +621,7 @@ var families = []struct {
 	{"traffic-sched", 1, 2},
 	{"dispatch-sched", 1, 2},
 	{"dispatch-many", 0, 0},
+	{"burst", 2, 3},
 	{"ping", 3, 4},
 }
 
